@@ -224,9 +224,26 @@ MutF(f, v, fmt, nf) ==
     [] f.k = "case" -> {Upd(v, f.name, y) : y \in MutItems(f.alts[fmt], v[f.name], fmt, nf)}
     [] f.k = "rle"  -> {Upd(v, f.name, y) : y \in MutFrames(v[f.name], f.per)}
     [] f.k = "cond" -> IF fmt \in f.in THEN MutS(f.body, v, fmt, nf) ELSE {}
-    [] OTHER -> {}          \* int (frame counts: changing them invalidates the block), count, pad, raw, pck
+    [] f.k = "pck"  -> LET data  == v[f.name]
+                           cells == {<<fr, c>> : fr \in 1..Len(data), c \in 1..(IF Len(data) = 0 THEN 0 ELSE Len(data[1]))}
+                       IN \* a cell loses its first point / an empty cell gets one; one coordinate changes
+                          {Upd(v, f.name, [data EXCEPT ![x[1]][x[2]] = IF @ = <<>> THEN << <<901, 902>> >> ELSE Tail(@)]) : x \in cells}
+                          \cup {Upd(v, f.name, [data EXCEPT ![x[1]][x[2]][1][2] = OtherId(@)])
+                                   : x \in {y \in cells : data[y[1]][y[2]] # <<>>}}
+    [] OTHER -> {}          \* int (frame counts: changing them invalidates the block), count, pad, raw
 
 MutS(fs, v, fmt, nf) == IF fs = <<>> THEN {} ELSE MutF(Head(fs), v, fmt, nf) \cup MutS(Tail(fs), v, fmt, nf)
 
-Mutants(struct, v, fmt) == MutS(Layout[struct], v, fmt, 0)
+\* keep per-element arrays (channel maps) as long as the list they describe
+RECURSIVE Sync(_, _)
+Sync(fs, v) ==
+  IF fs = <<>> THEN v
+  ELSE LET f == Head(fs) IN
+       IF f.k = "varr" /\ f.of # f.name /\ Len(v[f.name]) # Len(v[f.of])
+       THEN LET n == Len(v[f.of])  a == v[f.name] IN
+            Sync(Tail(fs), Upd(v, f.name, IF Len(a) > n THEN SubSeq(a, 1, n)
+                                          ELSE a \o [i \in 1..(n - Len(a)) |-> 990 + i]))
+       ELSE Sync(Tail(fs), v)
+
+Mutants(struct, v, fmt) == {Sync(Layout[struct], m) : m \in MutS(Layout[struct], v, fmt, 0)}
 =============================================================================
